@@ -185,6 +185,41 @@ rt("command_name",
    "do f(n) start\n" + BASE % "\"x\"" + "    make c get command(f(n add 1))\n    c.arg(\"q\")\n    return \"y\"\nend\n", "shout(f(0))\n")
 
 
+# -- bare recursion: no parameter, no base case, nothing evaluated on the cycle except the call itself --------
+# Every shape above evaluates a condition and an argument at each level, so some probed function is entered on
+# every cycle whatever path the call itself takes. These do not: the ONLY thing on the cycle is the construct
+# named by the shape, so a construct that reaches the callee without passing a probe (e.g. a shortcut for
+# `return <call>`) overflows the native stack here and nowhere else. At a small limit the functions are
+# defined but not called (they cannot terminate), which still validates that the program is well formed.
+def bare(name, defs, call):
+    def src(limit):
+        return defs + (call if limit >= INF else "shout(0)\n")
+    RT["bare_" + name] = {"kind": "rt", "construct": "bare_" + name, "src": src, "covers": []}
+
+
+bare("return", "do spin() start\n    return spin()\nend\n", "shout(spin())\n")
+bare("stmt", "do spin() start\n    spin()\nend\n", "spin()\n")
+bare("pingpong", "do ping() start\n    return pong()\nend\ndo pong() start\n    return ping()\nend\n", "shout(ping())\n")
+bare("cycle3", "do a() start\n    return b()\nend\ndo b() start\n    return c()\nend\ndo c() start\n    return a()\nend\n",
+     "shout(a())\n")
+bare("pingpong_stmt", "do ping() start\n    pong()\nend\ndo pong() start\n    ping()\nend\n", "ping()\n")
+bare("return_in_block", "do f() start\n    start\n        return f()\n    end\nend\n", "shout(f())\n")
+bare("return_in_if", "do f() start\n    if to say (true) start\n        return f()\n    end\n    return 0\nend\n", "shout(f())\n")
+bare("return_in_else", "do f() start\n    if to say (false) start\n        return 0\n    end\n    if not so start\n        return f()\n    end\nend\n",
+     "shout(f())\n")
+bare("return_in_loop", "do f() start\n    jasi (true) start\n        return f()\n    end\nend\n", "shout(f())\n")
+bare("assign", "do f() start\n    make r get f()\n    return r\nend\n", "shout(f())\n")
+bare("assign_existing", "make g get 0\ndo f() start\n    g get f()\n    return g\nend\n", "shout(f())\n")
+bare("assign_index_value", "make a get [0]\ndo f() start\n    a[0] get f()\n    return 0\nend\n", "shout(f())\n")
+bare("arg", "do id(x) start\n    return x\nend\ndo f() start\n    return id(f())\nend\n", "shout(f())\n")
+bare("builtin_arg", "do f() start\n    shout(f())\nend\n", "f()\n")
+bare("method", "do f() start\n    return f().len()\nend\n", "shout(f())\n")
+bare("index", "do f() start\n    return f()[0]\nend\n", "shout(f())\n")
+bare("not", "do f() start\n    return not f()\nend\n", "shout(f())\n")
+bare("array", "do f() start\n    return [f()]\nend\n", "shout(f())\n")
+bare("cond", "do f() start\n    if to say (f()) start\n        return true\n    end\n    return false\nend\n", "shout(f())\n")
+bare("nested_fn", "do f() start\n    do g() start\n        return f()\n    end\n    return g()\nend\n", "shout(f())\n")
+
 # ------------------------------------------------------------------------------------------------
 # source nesting
 NEST = {}
@@ -234,6 +269,11 @@ nest("member_chain", lambda n: dead("make y get \"a\"" + rep(".b", n, 20) + "\ns
 nest("assign_index_chain", lambda n: "make a get [0]\n" + dead("a" + rep("[0]", n, 20) + " get 1\n"))
 # lexer recursion (D-07c): the invalid-number path re-enters next_token
 nest("lex_number", lambda n: "make x get " + rep("1.a ", n, 10) + "\n", construct="invalid_number")
+
+
+# constructs the parser builds with a LOOP: their depth is not bounded by the parser's own probe, so a helper that
+# recurses on them with a small frame needs far more levels than the nested constructs to overrun 8 MiB
+CHAINS = ["binary_chain", "and_chain", "method_chain", "index_chain", "call_chain", "member_chain", "assign_index_chain"]
 
 
 def stage_cut(src, stage):
